@@ -190,8 +190,17 @@ Proof.
 Qed.
 
 
+Lemma Cv_eval_pauser T beh g i w : Cv w (eval_pauser T beh g i w).
+Proof.
+  unfold eval_pauser. destruct (negb (n_started _)); [apply Cv_refl|].
+  destruct (_ <? _).
+  - eapply Cv_trans; [apply Cv_upd_node|]. eapply Cv_trans; [apply Cv_emit|apply Cv_set_err].
+  - eapply Cv_trans; [apply Cv_upd_node|apply Cv_run_user].
+Qed.
+
 (* ------------------------------------------------------------------ the invariant *)
-Definition no_try (T : tcfg) : Prop := forall g i, c_kind (ncfg_at T g i) <> 2.
+(* no try_except node (kind 2) and no re-entering owner (kind 4): nothing ever resumes or swallows a cycle *)
+Definition no_try (T : tcfg) : Prop := forall g i, c_kind (ncfg_at T g i) <> 2 /\ c_kind (ncfg_at T g i) <> 4.
 
 (* an idle started graph: cursor at rest, cache covers every armed slot of its nodes *)
 Definition idle_ok (T : tcfg) (g : nat) (w : world) : Prop :=
@@ -281,7 +290,7 @@ Section INV.
   Hypothesis HN : no_try T.
 
   Lemma nested_kind1 g i : is_nested (ncfg_at T g i) = true -> c_kind (ncfg_at T g i) =? 1 = true.
-  Proof. unfold is_nested. specialize (HN g i). lia. Qed.
+  Proof. unfold is_nested. destruct (HN g i). lia. Qed.
 
   Lemma child_in_range g i : is_nested (ncfg_at T g i) = true -> (c_child (ncfg_at T g i) < length T)%nat.
   Proof. intros E. destruct HT as (_ & HK & _). eapply has_parent_in_range. apply (HK _ _ E). Qed.
@@ -298,7 +307,9 @@ Section INV.
       + eapply Below_trans; [apply Below_KeepCv; [exact K|apply Cv_relink]|].
         eapply Below_weaken; [|exact B]. pose proof (child_gt T HT _ _ E). lia.
       + rewrite L. apply K.
-    - assert (K := Keep_eval_plain T beh g i w). split; [apply Below_KeepCv; [exact K|apply Cv_eval_plain]|apply K].
+    - destruct (_ =? 5).
+      + assert (K := Keep_eval_pauser T beh g i w). split; [apply Below_KeepCv; [exact K|apply Cv_eval_pauser]|apply K].
+      + assert (K := Keep_eval_plain T beh g i w). split; [apply Below_KeepCv; [exact K|apply Cv_eval_plain]|apply K].
   Qed.
 
   Lemma eval_node_good ev g i w :
@@ -318,8 +329,11 @@ Section INV.
       intros a Ha. destruct (le_lt_dec c a); [apply Q2; auto|].
       destruct (B a l) as (_ & _ & Ev & _). rewrite Ev.
       destruct K1 as [_ K1]. rewrite (kg_evaluating _ _ (K1 a)). apply Q; lia.
-    - assert (K : Keep w (eval_plain T beh g i w)) by apply Keep_eval_plain.
-      split; [eapply Cov_step; eauto; apply Cv_eval_plain|eapply Quiet_Keep; eauto].
+    - destruct (_ =? 5).
+      + assert (K : Keep w (eval_pauser T beh g i w)) by apply Keep_eval_pauser.
+        split; [eapply Cov_step; eauto; apply Cv_eval_pauser|eapply Quiet_Keep; eauto].
+      + assert (K : Keep w (eval_plain T beh g i w)) by apply Keep_eval_plain.
+        split; [eapply Cov_step; eauto; apply Cv_eval_plain|eapply Quiet_Keep; eauto].
   Qed.
 
   (* the forward scan of graph g (in the middle of its cycle) *)
@@ -785,5 +799,5 @@ Qed.
 
 Lemma no_try_nest2 : no_try (decode nest2_case).
 Proof.
-  intros g i. destruct g as [|[|[|[|g]]]]; destruct i as [|[|[|[|[|[|i]]]]]]; vm_compute; intros H; discriminate.
+  intros g i. destruct g as [|[|[|[|g]]]]; destruct i as [|[|[|[|[|[|i]]]]]]; vm_compute; split; intros H; discriminate.
 Qed.
